@@ -81,15 +81,20 @@ def tlc(module, cwd, cfg=None, env=None, workers=1, timeout=900, lib=None, extra
     metaroot = metaroot or os.path.join(OUT, "tmp")
     os.makedirs(metaroot, exist_ok=True)
     md = os.path.join(metaroot, "md-%s-%d-%d" % (module, os.getpid(), int(time.time() * 1e6) % 10**9))
-    jopts = "-Xss256m -Xmx%s -XX:ParallelGCThreads=%d" % (heap, 2 if workers == 1 else min(8, workers))
+    # many single-worker JVMs run side by side (trace validation): the serial collector avoids the contention of
+    # 16 x parallel GC threads (measured here: 3x faster); multi-worker model checking keeps the parallel collector
+    if workers == 1:
+        jopts = "-Xss128m -Xmx%s -XX:+UseSerialGC" % heap
+    else:
+        jopts = "-Xss256m -Xmx%s -XX:+UseParallelGC -XX:ParallelGCThreads=%d" % (heap, min(8, workers))
     if c1:
-        jopts += " -XX:TieredStopAtLevel=1"      # many short-lived JVMs in parallel: skip the C2 compiler
+        jopts += " -XX:TieredStopAtLevel=1"      # integer-only trace specs: skip the C2 compiler
     if lib:
         jopts += " -DTLA-Library=" + ":".join(lib)
     e = {"JAVA_TOOL_OPTIONS": jopts}
     if env:
         e.update({k: str(v) for k, v in env.items()})
-    cmd = ["java", "-XX:+UseParallelGC", "-cp", JAR, "tlc2.TLC", "-workers", str(workers), "-metadir", md, "-nowarning"]
+    cmd = ["java", "-cp", JAR, "tlc2.TLC", "-workers", str(workers), "-metadir", md, "-nowarning"]
     if cfg:
         cmd += ["-config", cfg]
     if simulate:
@@ -243,7 +248,7 @@ class Check:
         return files
 
     # -- trace validation -----------------------------------------------------------------
-    def validate(self, module, files, cfg=None, timeout=1800, env=None, heap="3g"):
+    def validate(self, module, files, cfg=None, timeout=1800, env=None, heap="3g", c1=False):
         cwd = os.path.join(SPEC, "real")
         ensure_classes()
         jobs = []
@@ -253,7 +258,7 @@ class Check:
             if env:
                 e.update(env)
             jobs.append(dict(module=module, cwd=cwd, cfg=cfg or module + ".cfg", env=e, workers=1, timeout=timeout, lib=[os.path.join(SPEC, "core")], heap=heap, metaroot=self.dir,
-                             c1=os.path.getsize(f) < 200_000))
+                             c1=c1))
         t0 = time.time()
         res = tlc_many(jobs)
         nev = 0
